@@ -85,6 +85,9 @@ package envelope
 //@   noframe
 //@   nilable env
 //@   requires forall i int trigger privKeys[i] :: 0 <= i && i < len(privKeys) ==> privKeys[i] != nil && privKeyOK(privKeys[i])
+// every grant is visited: the grant loop is left only when the grants are exhausted (no early exit
+// once enough shares are in hand: the report counts everything the keys can reach)
+//@   loop 1 leaves-when rangeindex + 1 >= old(len(env.Grants))
 // every share collected has an encoded ID of its own: one entry of `seen` per collected share
 //@   loop 1 invariant seen != nil && len(collected) == len(seen)
 //@   loop 2 invariant seen != nil && len(collected) == len(seen)
